@@ -40,7 +40,11 @@ type Episode struct {
 	Hash    uint8  `json:"hash,omitempty"` // 0 SHA2_256, 1 SHAKE_128, 2 SHAKE_256
 	Stub    bool   `json:"stub,omitempty"` // leaf seam: stub leaves instead of WOTS+L-tree
 	SeedHex string `json:"seed,omitempty"` // 48-byte key seed (or entropy stream seed)
-	Twin    string `json:"twin,omitempty"` // mirror | unit | sign | none
+	Twin    string `json:"twin,omitempty"` // mirror | unit | sign | ff | none
+	// Ctor: constructor of the live object in xmss episodes: seed (default) |
+	// ext (NewXMSSFromExtendedSeed) | height (NewXMSSFromHeight over the
+	// simulated entropy source). The twin is always built by NewXMSSFromSeed.
+	Ctor string `json:"ctor,omitempty"`
 	Ops     []Op   `json:"ops,omitempty"`
 	// Drain: after the ops, walk live object and twin on towards the end of
 	// the key's life comparing every authentication path: none | full | tail:<n>
